@@ -12,9 +12,15 @@
      util/util.go + sort.Search  BinSearchInRange                       -> bin_search, bsearch
      frac/active_index.go        activeFetchIndex.GetDocPos             -> active lookup (map id -> doc)
    The unrepaired versions are kept as calc_chunk_v0 / find_lids_gen false (…_v0).
-   NOT modelled (only exercised end to end by the correspondence run): DocPos packing, GroupDocsOffsets,
-   DocsReader.ReadDocs, the position blocks of the sealed index, zstd: a fraction's table entry carries its
-   document directly. A document is represented by (document number >= 1, length in bytes).
+     seq/doc_pos.go              PackDocPos, Unpack, GroupDocsOffsets   -> pack_pos, unpack_pos, group_offsets
+     frac/processor/fetch.go     IndexFetch                             -> index_fetch
+     disk/docs_reader.go         ReadDocs, extractDocsFromBlockFunc     -> read_bytes / extract_doc (bytes),
+                                                                           read_abs (document descriptors)
+     frac/sealed_index.go        getDocPosByLIDs                        -> pos_by_lids
+     frac/active_index.go        GetDocPos with the snapshot guard      -> active_pos (active_pos_v0: before 5d51c58)
+   In the end-to-end model a document is a descriptor (document number >= 1, length in bytes) and a decoded
+   block is the list of its documents with their in-block offsets; the byte-level functions run in the
+   unit-level cases, ProofsPos.extract_refines ties the two. NOT modelled: zstd, the docs cache.
    The store is quiescent while a request runs (no concurrent ingest, sealing or deletion: properties C09/C15);
    the parallel per-fraction fetches of fetchDocsAsync are modelled sequentially (their results are combined
    by position, the first error wins). *)
@@ -78,7 +84,8 @@ Record frac := mkFrac { f_name : N;              (* >= 1 *)
                         f_sealed : bool;
                         f_from : N; f_to : N;
                         f_dist : option dist;
-                        f_docs : list (id * body) }.
+                        f_docs : list (id * body);   (* in the order they lie in the docs file *)
+                        f_split : list nat }.        (* documents per doc block (the rest forms the last block) *)
 
 Definition intersecting_gen (idx : dist -> N -> N) (f : frac) (lo hi : N) : bool :=
   match f_docs f with
@@ -123,6 +130,129 @@ Module EntOrder <: TotalLeBool.
 End EntOrder.
 Module EntSort := Sort EntOrder.
 
+(* ------------------------------------------------------------------ seq/doc_pos.go *)
+Definition max_doc_offset : N := 1073741823.                  (* 1<<30 - 1 *)
+Definition two32 : N := 4294967296.
+Definition pos_not_found : N := max64.                        (* DocPosNotFound *)
+Definition raw_pos (b off : N) : N := N.lor (N.shiftl b 30) off + 1.
+(* PackDocPos(blockIndex uint32, offset): logger.Panic when the offset needs more than 30 bits *)
+Definition pack_pos (b off : N) : res N := if max_doc_offset <? off then Panic else Ok (raw_pos b off).
+(* DocPos.Unpack: pos-- wraps for 0 *)
+Definition unpack_pos (p : N) : N * N :=
+  let q := if p =? 0 then max64 else p - 1 in
+  (N.shiftr q 30 mod two32, N.land q max_doc_offset).
+
+(* seq.GroupDocsOffsets: per distinct block (first-occurrence order) the in-block offsets and the request
+   positions; the uniq map is a search in the list of groups, the per-group slices are kept reversed *)
+Definition pgroup := (N * list N * list N)%type.                (* block, offsets (rev), request indices (rev) *)
+Fixpoint add_to_group (blk off i : N) (gs : list pgroup) : list pgroup :=
+  match gs with
+  | [] => [(blk, [off], [i])]
+  | (b, os, is) :: r => if b =? blk then (b, off :: os, i :: is) :: r
+                        else (b, os, is) :: add_to_group blk off i r
+  end.
+Fixpoint group_from (ps : list N) (i : N) (gs : list pgroup) : list pgroup :=
+  match ps with
+  | [] => gs
+  | p :: r => if p =? pos_not_found then group_from r (i + 1) gs
+              else let '(blk, off) := unpack_pos p in group_from r (i + 1) (add_to_group blk off i gs)
+  end.
+(* (blocks, offsets, index) as three parallel lists *)
+Definition group_offsets (ps : list N) : list (N * list N * list N) :=
+  map (fun g : pgroup => let '(b, os, is) := g in (b, rev os, rev is)) (group_from ps 0 []).
+
+(* processor.IndexFetch over a fetch index: block offsets table, ReadDocs; D = what a document is
+   (bytes in the unit-level cases, a descriptor in the end-to-end model). Any panic / read error = Panic. *)
+Section IndexFetch.
+  Context {D : Type}.
+  Fixpoint put_res (idx : list N) (docs : list D) (a : PositiveMap.t D) : res (PositiveMap.t D) :=
+    match idx, docs with
+    | [], _ => Ok a                                              (* range over index[i] *)
+    | i :: ri, d :: rd => put_res ri rd (PositiveMap.add (ikey i) d a)
+    | _ :: _, [] => Panic                                        (* docs[src] out of range *)
+    end.
+  Fixpoint fetch_groups (boffs : list N) (read : N -> list N -> res (list D))
+           (gs : list (N * list N * list N)) (a : PositiveMap.t D) : res (PositiveMap.t D) :=
+    match gs with
+    | [] => Ok a
+    | (blk, offs, idx) :: r =>
+        match nth_error boffs (N.to_nat blk) with
+        | None => Panic                                          (* GetBlocksOffsets(num): index out of range *)
+        | Some bo =>
+            match read bo offs with
+            | Ok docs => match put_res idx docs a with
+                         | Ok a' => fetch_groups boffs read r a'
+                         | Panic => Panic | Fuel => Fuel end
+            | Panic => Panic | Fuel => Fuel
+            end
+        end
+    end.
+  Fixpoint read_arr (a : PositiveMap.t D) (i : N) (n : nat) : list (option D) :=
+    match n with O => [] | S k => PositiveMap.find (ikey i) a :: read_arr a (i + 1) k end.
+  Definition index_fetch (boffs : list N) (read : N -> list N -> res (list D)) (ps : list N)
+    : res (list (option D)) :=
+    match fetch_groups boffs read (group_offsets ps) (PositiveMap.empty D) with
+    | Ok a => Ok (read_arr a 0 (length ps))
+    | Panic => Panic | Fuel => Fuel
+    end.
+End IndexFetch.
+
+Fixpoint map_res {A B} (f : A -> res B) (l : list A) : res (list B) :=
+  match l with
+  | [] => Ok []
+  | x :: r => match f x with
+              | Ok y => match map_res f r with Ok t => Ok (y :: t) | Panic => Panic | Fuel => Fuel end
+              | Panic => Panic | Fuel => Fuel
+              end
+  end.
+Fixpoint assoc {A} (k : N) (l : list (N * A)) : option A :=
+  match l with [] => None | (k', v) :: r => if k' =? k then Some v else assoc k r end.
+
+(* ---- disk/docs_reader.go on bytes: a decoded block is the concatenation of (4-byte little-endian length,
+   document); extractDocsFromBlockFunc slices it by in-block offsets *)
+Definition le32 (n : N) : list N := [n mod 256; n / 256 mod 256; n / 65536 mod 256; n / 16777216 mod 256].
+Definition encode_block (docs : list (list N)) : list N :=
+  flat_map (fun d => le32 (N.of_nat (length d)) ++ d) docs.
+Definition extract_doc (blk : list N) (o : N) : res (list N) :=
+  match skipn (N.to_nat o) blk with
+  | b0 :: b1 :: b2 :: b3 :: rest =>
+      let size := b0 + 256 * b1 + 65536 * b2 + 16777216 * b3 in
+      if size <=? N.of_nat (length rest) then Ok (firstn (N.to_nat size) rest) else Panic
+  | _ => Panic                                                   (* fewer than 4 bytes at the offset *)
+  end.
+Definition read_bytes (file : list (N * list N)) (bo : N) (offs : list N) : res (list (list N)) :=
+  match assoc bo file with
+  | Some blk => map_res (extract_doc blk) offs
+  | None => Panic                                                (* no block at that file offset: read error *)
+  end.
+
+(* ---- the same on document descriptors (end-to-end model): a block is the list of its documents, the
+   document at in-block offset o is the one whose 4-byte length prefix starts at o *)
+Fixpoint cells_from (o : N) (blk : list (id * body)) : list (N * body) :=
+  match blk with [] => [] | (_, d) :: r => (o, d) :: cells_from (o + 4 + snd d) r end.
+Definition read_abs (file : list (N * list (N * body))) (bo : N) (offs : list N) : res (list body) :=
+  match assoc bo file with
+  | Some cs => map_res (fun o => match assoc o cs with Some d => Ok d | None => Panic end) offs
+  | None => Panic
+  end.
+
+(* the physical layout of a fraction's docs file *)
+Fixpoint split_blocks {A} (sp : list nat) (l : list A) : list (list A) :=
+  match sp with
+  | [] => match l with [] => [] | _ => [l] end
+  | n :: r => firstn n l :: split_blocks r (skipn n l)
+  end.
+Fixpoint block_size (blk : list (id * body)) : N :=
+  match blk with [] => 0 | (_, d) :: r => 4 + snd d + block_size r end.
+(* file offset of every block (any strictly increasing numbers would do) *)
+Fixpoint block_offsets (bo : N) (blks : list (list (id * body))) : list N :=
+  match blks with [] => [] | b :: r => bo :: block_offsets (bo + 33 + block_size b) r end.
+(* position of every document: block index, in-block offset *)
+Fixpoint block_positions (b o : N) (blk : list (id * body)) : list (id * N) :=
+  match blk with [] => [] | (x, d) :: r => (x, raw_pos b o) :: block_positions b (o + 4 + snd d) r end.
+Fixpoint layout_positions (b : N) (blks : list (list (id * body))) : list (id * N) :=
+  match blks with [] => [] | blk :: r => block_positions b 0 blk ++ layout_positions (b + 1) r end.
+
 (* ------------------------------------------------------------------ compiled fraction *)
 Definition sentinel : id * body := ((max64, max64), (0, 0)).   (* systemSeqID at LID 0 *)
 
@@ -133,17 +263,44 @@ Fixpoint build_tbl (l : list (id * body)) (i : N) (t : PositiveMap.t (id * body)
 Fixpoint build_act (l : list (id * body)) : PositiveMap.t body :=
   match l with [] => PositiveMap.empty _ | (x, b) :: r => PositiveMap.add (key x) b (build_act r) end.
 
+(* DocsPositions: ID -> DocPos, the first position stored under an ID is kept *)
+Fixpoint build_apos (l : list (id * N)) : PositiveMap.t N :=
+  match l with [] => PositiveMap.empty _ | (x, p) :: r => PositiveMap.add (key x) p (build_apos r) end.
+Fixpoint build_ptab (l : list N) (i : N) (t : PositiveMap.t N) : PositiveMap.t N :=
+  match l with [] => t | e :: r => build_ptab r (i + 1) (PositiveMap.add (ikey i) e t) end.
+
+(* what lies on disk / in the position structures *)
+Record phys := mkP { p_apos : PositiveMap.t N;                  (* active: DocsPositions *)
+                     p_ptab : PositiveMap.t N;                  (* sealed: LID -> DocPos (position blocks) *)
+                     p_boffs : list N;                          (* blocksOffsets *)
+                     p_file : list (N * list (N * body)) }.     (* file offset -> decoded block *)
+
 Record cfrac := mkC { cf : frac;
                       cf_n : N;                                  (* IDsTotal (with the sentinel) *)
-                      cf_tbl : PositiveMap.t (id * body);        (* LID -> (ID, document) *)
-                      cf_act : PositiveMap.t body }.             (* active: ID -> document *)
+                      cf_tbl : PositiveMap.t (id * body);        (* LID -> (ID, document): MID/RID blocks *)
+                      cf_act : PositiveMap.t body;               (* specification side only: ID -> document *)
+                      cf_phys : phys }.
 
 Definition table_of (f : frac) : list (id * body) := sentinel :: EntSort.sort (f_docs f).
+Definition blocks_of (f : frac) : list (list (id * body)) := split_blocks (f_split f) (f_docs f).
+Definition apos_of (f : frac) : PositiveMap.t N := build_apos (layout_positions 0 (blocks_of f)).
+(* fillPos: positions.Get(id) for every ID of the table (the sentinel has none: DocPosNotFound) *)
+Definition ptab_of (f : frac) : list N :=
+  map (fun e : id * body => match PositiveMap.find (key (fst e)) (apos_of f) with
+                            | Some p => p | None => pos_not_found end) (table_of f).
+
+Definition phys_of (f : frac) : phys :=
+  let blks := blocks_of f in
+  let boffs := block_offsets 0 blks in
+  mkP (apos_of f)
+      (if f_sealed f then build_ptab (ptab_of f) 0 (PositiveMap.empty _) else PositiveMap.empty _)
+      boffs (combine boffs (map (cells_from 0) blks)).
 
 Definition compile (f : frac) : cfrac :=
   if f_sealed f
-  then let l := table_of f in mkC f (N.of_nat (length l)) (build_tbl l 0 (PositiveMap.empty _)) (PositiveMap.empty _)
-  else mkC f 0 (PositiveMap.empty _) (build_act (f_docs f)).
+  then let l := table_of f in
+       mkC f (N.of_nat (length l)) (build_tbl l 0 (PositiveMap.empty _)) (PositiveMap.empty _) (phys_of f)
+  else mkC f 0 (PositiveMap.empty _) (build_act (f_docs f)) (phys_of f).
 
 Definition tbl_get (c : cfrac) (lid : N) : option (id * body) := PositiveMap.find (ikey lid) (cf_tbl c).
 Definition tbl_id (c : cfrac) (lid : N) : res id :=
@@ -220,7 +377,7 @@ Fixpoint find_lids_gen (guard : bool) (g : cfg) (c : cfrac) (prev : option id) (
       end
   end.
 
-(* getDocPosByLIDs + IndexFetch + ReadDocs, abstracted: LID 0 = not found, else the entry's document *)
+(* specification side only (used in proofs): LID 0 = not found, else the entry's document *)
 Fixpoint docs_of_lids (c : cfrac) (lids : list N) : res (list (option body)) :=
   match lids with
   | [] => Ok []
@@ -232,14 +389,57 @@ Fixpoint docs_of_lids (c : cfrac) (lids : list N) : res (list (option body)) :=
       end
   end.
 
-(* DataProvider.Fetch of one fraction *)
+(* sealedFetchIndex.getDocPosByLIDs: position blocks of ipb LIDs, the last used block is kept
+   (prev = its index and start LID); an empty or missing block and an index beyond the block = panic *)
+Fixpoint pos_by_lids (g : cfg) (ptab : PositiveMap.t N) (n : N) (prev : option (N * N)) (lids : list N)
+  : res (list N) :=
+  match lids with
+  | [] => Ok []
+  | l :: r =>
+      if l =? 0
+      then match pos_by_lids g ptab n prev r with
+           | Ok t => Ok (pos_not_found :: t) | Panic => Panic | Fuel => Fuel end
+      else
+        let index := l / ipb g in
+        let '(bi, start) := match prev with
+                            | Some (pi, ps) => if pi =? index then (pi, ps) else (index, index * ipb g)
+                            | None => (index, index * ipb g)
+                            end in
+        let blen := N.min ((bi + 1) * ipb g) n - bi * ipb g in       (* len(positions) of block bi *)
+        if (blen =? 0) || negb (l - start <? blen) then Panic
+        else match PositiveMap.find (ikey (bi * ipb g + (l - start))) ptab with
+             | Some p => match pos_by_lids g ptab n (Some (bi, start)) r with
+                         | Ok t => Ok (p :: t) | Panic => Panic | Fuel => Fuel end
+             | None => Panic
+             end
+  end.
+
+(* activeFetchIndex.GetDocPos (as repaired by 5d51c58): positions are looked up live, the block offsets are a
+   snapshot of k blocks: a position in a block >= k is not found (yet) *)
+Definition active_pos (k : N) (apos : PositiveMap.t N) (x : id) : N :=
+  match PositiveMap.find (key x) apos with
+  | None => pos_not_found
+  | Some p => if p =? pos_not_found then pos_not_found
+              else if k <=? fst (unpack_pos p) then pos_not_found else p
+  end.
+(* before 5d51c58: no guard (the block index then ran past the snapshot: panic in GetBlocksOffsets) *)
+Definition active_pos_v0 (k : N) (apos : PositiveMap.t N) (x : id) : N :=
+  match PositiveMap.find (key x) apos with None => pos_not_found | Some p => p end.
+
+(* DataProvider.Fetch of one fraction: GetDocPos, then processor.IndexFetch *)
 Definition frac_fetch_gen (guard : bool) (g : cfg) (c : cfrac) (ids : list id) : res (list (option body)) :=
+  let ph := cf_phys c in
   if f_sealed (cf c)
   then match find_lids_gen guard g c None 1 ids with
-       | Ok lids => docs_of_lids c lids
+       | Ok lids =>
+           match pos_by_lids g (p_ptab ph) (cf_n c) None lids with
+           | Ok ps => index_fetch (p_boffs ph) (read_abs (p_file ph)) ps
+           | Panic => Panic | Fuel => Fuel
+           end
        | Panic => Panic | Fuel => Fuel
        end
-  else Ok (map (fun x => PositiveMap.find (key x) (cf_act c)) ids).
+  else index_fetch (p_boffs ph) (read_abs (p_file ph))
+                   (map (active_pos (N.of_nat (length (p_boffs ph))) (p_apos ph)) ids).
 
 (* ------------------------------------------------------------------ fracmanager.Fetcher *)
 Definition sort_ids (ids : list idsrc) : list idsrc * N * N :=
